@@ -43,7 +43,7 @@ def canon(x) -> str:
 
 
 class Conn:
-    __slots__ = ("cid", "hid", "nkey", "sid", "name", "uarg", "uargs", "weak", "state", "why", "reent")
+    __slots__ = ("cid", "hid", "nkey", "sid", "name", "uarg", "uargs", "weak", "state", "why", "reent", "gcin")
 
     def __init__(self, cid, sid, name, hid, weak, uargs, uarg):
         self.cid = cid
@@ -57,6 +57,7 @@ class Conn:
         self.state = "live"  # live | gone
         self.why = None  # disc | weak-death | sender-death
         self.reent = None
+        self.gcin = None  # API call inside which the gc collected a weak argument of another handler of the same signal
 
     def expected(self, emit_args):
         return [{"o": w} for w in self.weak] + self.uargs + list(emit_args) + ([self.uarg] if self.uarg is not None else [])
@@ -103,6 +104,7 @@ class Model:
         self.lists = {}  # (sid, canon(name)) -> [Conn]
         self.conns = {}  # cid -> Conn
         self.by_hid = {}  # hid -> [Conn] in connection order
+        self.nearmiss = {}  # cid -> which single part a disconnect-by-arguments request for the same callback differed in
         self.dead = set()  # dead oids
         self.frames = []
         self.findings = []
@@ -188,9 +190,30 @@ class Model:
         for c in self.lst(ev["sid"], ev["name"]):
             if c.same_args(ev):
                 self.stat("disc_args_hit")
+                if ev["uarg"] is not None:
+                    self.stat("disc_args_hit_with_user_arg")
+                self.near_miss(ev, c)
                 self.remove(c, "disc")
                 return
         self.stat("disc_not_connected")
+        self.near_miss(ev, None)
+
+    def near_miss(self, ev, hit):
+        """evidence: was there a live connection of the same callback differing from the request in exactly one part?"""
+        for c in self.lst(ev["sid"], ev["name"]):
+            if c is hit or c.hid != ev["hid"]:
+                continue
+            same = (c.weak == list(ev["weak"]), canon(c.uargs) == canon(list(ev["uargs"])), canon(c.uarg) == canon(ev["uarg"]))
+            if False in same and same.count(False) == 1:
+                self.nearmiss.setdefault(c.cid, set()).add(("weak_args", "user_args", "user_arg")[same.index(False)])
+            if same == (True, True, False):
+                self.stat("disc_args_while_same_callback_connected_with_other_user_arg")
+                if ev["uarg"] is None:
+                    self.stat("disc_args_user_arg_omitted_while_connected_with_one")
+            elif same == (True, False, True):
+                self.stat("disc_args_while_same_callback_connected_with_other_user_args")
+            elif same == (False, True, True):
+                self.stat("disc_args_while_same_callback_connected_with_other_weak_args")
 
     def ev_disc_key(self, ev):
         self.stat("disc_key")
@@ -207,6 +230,8 @@ class Model:
     def ev_kill(self, ev):
         oid = ev["oid"]
         self.stat("kill")
+        if ev.get("auto"):
+            self.stat("kill_by_automatic_gc")
         is_sender = oid in self.header["senders"]
         if not ev["dead"]:
             n = sum(1 for c in self.conns.values() if c.state == "live" and (oid in c.weak or c.sid == oid))
@@ -226,6 +251,10 @@ class Model:
                 self.remove(c, "sender-death")
             elif oid in c.weak:
                 self.remove(c, "weak-death")
+                if ev.get("inside"):
+                    self.stat("weak_death_by_gc_inside:" + ev["inside"])
+                    for o in self.lst(c.sid, c.name):
+                        o.gcin = ev["inside"]
 
     def ev_gc(self, ev):
         self.stat("gc")
@@ -243,6 +272,9 @@ class Model:
         self.frames.append(f)
         any_true = False
         for call in ev["calls"]:
+            if "marker" in call:  # something that happened between two handler calls (a weak argument collected by the gc)
+                self.event(call["marker"])
+                continue
             self.stat("calls")
             any_true = any_true or bool(call["truthy"])
             self.attribute(f, call)
@@ -267,7 +299,7 @@ class Model:
             if n == 0:
                 f.finds.append(
                     (
-                        f"emit|handler-skipped|{depth}|during:{self.mutsig(f)}" + ("|connection-made-while-connect-was-re-entered" if c.reent else "") + self.lay(sid),
+                        self.skipped_sig(f, c, depth, sid),
                         f"connection #{c.cid} (handler {c.hid}) stayed connected throughout emit({sid},{name!r}) but was not called; "
                         f"snapshot={[x.cid for x in f.snapshot]} called={f.call_order} removed={f.removed} added={sorted(f.added)}",
                     )
@@ -305,9 +337,21 @@ class Model:
                 self.stat("result_true_expected")
             if bool(ev["result_truthy"]) != any_true:
                 self.find(
-                    f"emit|result|expected={any_true}|ncalls={min(len(ev['calls']), 2)}",
-                    f"emit returned {ev['result']!r}; handler returns were {[c['ret'] for c in ev['calls']]}",
+                    f"emit|result|expected={any_true}|ncalls={min(sum(1 for c in ev['calls'] if 'marker' not in c), 2)}",
+                    f"emit returned {ev['result']!r}; handler returns were {[c['ret'] for c in ev['calls'] if 'marker' not in c]}",
                 )
+
+    def skipped_sig(self, f, c, depth, sid):
+        if c.gcin in ("by_key", "disconnect"):
+            # one canonical signature for this mechanism, whatever else went on in the history
+            return "emit|handler-skipped|live-handler-lost-after-gc-collected-a-weak-arg-inside-a-disconnect-call"
+        return (
+            f"emit|handler-skipped|{depth}|during:{self.mutsig(f)}"
+            + ("|connection-made-while-connect-was-re-entered" if c.reent else "")
+            + (f"|after-disconnect-request-differing-only-in:{'+'.join(sorted(self.nearmiss[c.cid]))}" if c.cid in self.nearmiss else "")
+            + (f"|a-weak-arg-of-this-signal-was-collected-inside:{c.gcin}" if c.gcin else "")
+            + self.lay(sid)
+        )
 
     def exact_assignment(self, f, required, budget=4000):
         """is there an assignment call -> distinct allowed connection with every required connection used
